@@ -18,4 +18,10 @@ structure SparseBuilderR where
 def SparseBuilderR.toModel (b : SparseBuilderR) : SparseBuilder :=
   ⟨b.data.len, b.data.low, b.high, b.len, b.next, b.increment⟩
 
+/-- a builder method translated on the model's flat layout, applied to the Rust layout: the methods of `SparseBuilder`
+other than the constructors and `try_from` touch `data.low`, `high` and the counters, never `data.high` -/
+def spbrLift (f : SparseBuilder → Outcome SparseBuilder) (b : SparseBuilderR) : Outcome SparseBuilderR := do
+  let b' ← f b.toModel
+  return ⟨⟨b'.univ, b.data.high, b'.low⟩, b'.high, b'.len, b'.next, b'.increment⟩
+
 end Sds
